@@ -244,6 +244,16 @@ def main():
             tr, mo = run_traces(ctx, profile, seed, hists, steps)
             runs.append({"profile": profile, "seed": seed, "histories": hists, "steps_per_history": steps})
             outputs.append((tr, mo))
+        if fp.get("twin"):
+            # crash-restart twin: replay every trace with a restart after every operation and compare
+            for tr, mo in list(outputs):
+                tw = tr + ".twin"
+                if not os.path.exists(tw):
+                    with open(tw + ".tmp", "w") as fout:
+                        subprocess.run([ctx.drive, "-twin", tr], stdout=fout, stderr=subprocess.DEVNULL, timeout=3600)
+                    os.replace(tw + ".tmp", tw)
+                runs.append({"twin_of": os.path.basename(tr)})
+                outputs.append((tr, tw))
         for tr, mo in outputs:
             for line in open(mo):
                 m = LINE.match(line)
@@ -260,7 +270,7 @@ def main():
                     if (("*" in ops) or kv.get("op") in ops) and kv.get("field") in fields:
                         mism.append((tr, kv, line.strip()[:600]))
                 elif kind == "MONITOR":
-                    if kv.get("prop") == prop:
+                    if kv.get("prop") == prop or (kv.get("prop") == "C03" and prop == "C01" and kv.get("clause") in ("twinDivergence", "globalResidue")):
                         hits.append((tr, kv, line.strip()[:600]))
                 elif kind in ("DECODE-ERROR", "PARSE-ERROR"):
                     broken.append(f"model driver could not decode the harness trace: {line.strip()[:300]}")
@@ -280,19 +290,18 @@ def main():
     def step_of(kv):
         return int(kv["i"]) if kv.get("i", "").isdigit() else -1
     for tr, kv, line in sorted(hits, key=lambda h: (h[0], int(h[1].get("hist", 0)), step_of(h[1]))):
-        hkey = (tr, kv.get("hist"))
-        if hkey in tainted and step_of(kv) >= tainted[hkey]:
-            ntainted += 1
-            continue
+        hkey = (os.path.basename(tr).split(".")[0], kv.get("hist"))
         k = next((k for k in known if k.get("clause") == kv.get("clause") and k.get("cls", kv.get("cls")) == kv.get("cls")), None)
         if k:
             reproduced.setdefault(k["id"], (k, line))
-            tainted[hkey] = step_of(kv)
+            tainted.setdefault(hkey, step_of(kv))
+        elif hkey in tainted and step_of(kv) >= tainted[hkey]:
+            ntainted += 1
         else:
             unexplained.append((tr, kv, line))
     exit_code = 0
     for kid, (k, line) in reproduced.items():
-        print(f"KNOWN-FINDING: property={prop} {k['_line'][len('finding:'):].strip()}")
+        print("KNOWN-FINDING: " + k["_line"][len("finding:"):].strip())
     if unexplained:
         tr, kv, line = unexplained[0]
         path = write_replay(f"{prop}-{kv.get('hist')}-{kv.get('i')}.json", tr, kv, {"kind": "monitor", "monitor": line, "count": len(unexplained)})
